@@ -528,6 +528,16 @@ fn gen14(seed: u64, idx: u64, _t: Tier) -> J {
 			4 => format!(".{}", ext_for(&mut r, f)), // hidden file, no extension
 			5 => format!("{stem}.{}", ext_for(&mut r, f).to_uppercase()),
 			6 => format!("sub/{stem}.{}", ext_for(&mut r, f)),
+			7 => {
+				// near misses of the extension table: resolved by detection, not by the extension
+				let base = ext_for(&mut r, f);
+				match r.below(4) {
+					0 => format!("{stem}.{base}{}", *r.pick(&["2", "l", "x", "-json", "_old", "~", "5"])),
+					1 => format!("{stem}.{}", &base[..base.len() - 1]),
+					2 => format!("{stem}.x{base}"),
+					_ => format!("{stem}.{base}."),
+				}
+			}
 			_ => format!("{stem}.{}", ext_for(&mut r, f)),
 		};
 		let name = if c.files.iter().any(|f| f.name == name) { format!("d{i}/{name}") } else { name };
